@@ -124,6 +124,21 @@ func c02Units(tier string) []Unit {
 				decos: []*uFunc{dA}, invokes: []*uFunc{iA, iB, iC}}, d, explore.Budget{Provides: 3, Decorates: 1, Invokes: inv, Rejected: 0})
 		}
 	}
+	// a failure that strikes while a constructor is being re-entered through a
+	// decorator (the inner run has completed, the outer one is still building
+	// its arguments): the completed run stays the only one
+	for _, beh := range []u.Beh{u.BehErr, u.BehPanic} {
+		for _, rec := range []bool{false, true} {
+			if beh == u.BehErr && rec {
+				continue // RecoverFromPanics is irrelevant when nothing panics
+			}
+			bud := explore.Budget{Provides: 2, Decorates: 1, Invokes: inv, Rejected: 0}
+			add(fmt.Sprintf("reentry-then-failure/single/%v/recover=%v", beh, rec), h.Config{Recover: rec}, map[string][]u.Beh{"dABae": {beh, u.BehOK}}, prefixChild,
+				alpha{scopes: []int{0, 1}, ctors: []*uFunc{pA, pB}, decos: []*uFunc{dABae}, invokes: []*uFunc{iA, iB}}, d, bud)
+			add(fmt.Sprintf("reentry-then-failure/group/%v/recover=%v", beh, rec), h.Config{Recover: rec}, map[string][]u.Beh{"dGBAe": {beh, u.BehOK}}, prefixChild,
+				alpha{scopes: []int{0, 1}, ctors: []*uFunc{pA, fBgA}, decos: []*uFunc{dGBAe}, invokes: []*uFunc{iA, iGB}}, d, bud)
+		}
+	}
 	return get()
 }
 
@@ -145,6 +160,10 @@ func c03Units(tier string) []Unit {
 			decos: []*uFunc{dG}, invokes: []*uFunc{iGs, iG, iB, iC, iS1}, visualize: true}, d, b)
 		add("optional-providers"+tag, cfg, nil, prefixChild, alpha{scopes: []int{0, 1}, ctors: []*uFunc{pA, pBo, pCob, pCb, pDd},
 			invokes: []*uFunc{iCo, iC, iBo}}, d, b)
+		// decorators of one key at two levels (consuming the key or replacing
+		// it): only the nearest one and what it asks for may run
+		add("decorator-levels"+tag, cfg, nil, prefixChild, alpha{scopes: []int{0, 1}, ctors: []*uFunc{pA, pDd},
+			decos: []*uFunc{dA, dA0}, invokes: []*uFunc{iA}}, d+1, explore.Budget{Provides: 2, Decorates: 2, Invokes: 3, Rejected: 0})
 		b2 := b
 		b2.Scopes = 2
 		add("late-scopes"+tag, cfg, nil, nil, alpha{scopes: []int{0, 1, 2}, ctors: []*uFunc{pA, pB, pDd}, export: true,
@@ -244,6 +263,11 @@ func c08Units(tier string) []Unit {
 			invokes: []*uFunc{iA, iB}, scopeOps: par}, d, b)
 		add("shadowing"+tag, cfg, nil, nil, alpha{scopes: []int{0, 1, 2}, ctors: []*uFunc{pA, pA2, pB},
 			decos: []*uFunc{dA}, invokes: []*uFunc{iA, iB}, scopeOps: []int{0, 1}}, d, b)
+		// a Provide on an ancestor rejected for a cycle that only a descendant
+		// sees must not disturb what the descendant (or anyone) resolves
+		br := explore.Budget{Scopes: 2, Provides: 4, Invokes: 2, Rejected: 1}
+		add("rejected-ancestor-provide"+tag, cfg, nil, nil, alpha{scopes: []int{0, 1, 2}, ctors: []*uFunc{rAB, rCA, rBC, pB0},
+			invokes: []*uFunc{iA, iB, iC}, scopeOps: []int{0}}, d, br)
 	}
 	return get()
 }
